@@ -86,7 +86,7 @@ def check_casts_on_term(out, key, t, extra_sinks, loc):
                         continue
                     taken = a[2] == 'true'
                     on_path = {ln: (bool(v) == taken) for ln, v in vals.items()}
-                    if on_path[0] and on_path[lim] and not on_path[lim + 1] and not on_path[2 ** 40]:
+                    if on_path[0] and not on_path[lim + 1] and not on_path[2 ** 40]:
                         guarded = True
                 out.ob('R15.1', '%s / `%s`' % (key, sym.vstr(c)[:70]), guarded,
                        'a length is narrowed with `as %s` on a path that does not exclude values above %d: the count written would be truncated' % (c[1], lim), loc)
